@@ -90,7 +90,9 @@ func (e *collEnv) define(spec int) int {
 	if !e.defined[u] {
 		e.defined[u] = true
 		var f []byte
-		if u >= len(collUniverse) {
+		if u == 71 {
+			f = []byte{0x40, 0x01} // the one generated entry that branches off at the first byte
+		} else if u >= len(collUniverse) {
 			f = []byte{0x20, byte(3*u + 1)}
 		} else if spec&(1<<12) != 0 {
 			// first and third byte concrete ("k?x?"-shaped keys): fewer paths, same tree shapes
@@ -137,6 +139,7 @@ func hkColl[K chars | []rune](e *collEnv, conv func(string) K, back func(K) stri
 			return vpTreeState{tt.root, tt.size, lv}
 		},
 		newTree: func() Tree[K, uint64] { return NewCollationSortedTree[K, uint64]() },
+		tkeyOf:  func(k K) []byte { return e.fkey[idx(k)] },
 		newKey:  func(spec int) K { return conv(collString(e.define(spec))) },
 		concKey: func(spec int) K { return conv(collString(e.define(spec | 1<<20))) },
 		clone:   func(k K) K { return conv(back(k)) },
